@@ -148,6 +148,9 @@ def run_property(prop: str, tier: str = "quick", replay: Optional[str] = None, t
             # the contract names this property but its body is verified by another property's run (listed, not counted)
             assumed_contracts.append("%s: not verified in this run - %s" % (q, elsewhere[q]))
             continue
+        if getattr(c, "definitions", None) is not None:
+            assumed_contracts.append("%s: defining equation(s) of ghost predicate(s) assumed while its body is verified "
+                                     "(Contract.definitions; conservative extension)" % q)
         try:
             res = eng.verify_function(q, c)
         except Exception as e:  # generator crash = engine limit, never a violation
